@@ -23,7 +23,7 @@ CHECKS = {
             E1_NOTE + " The daemon-level clause (keeps serving other transactions) is part of C11's daemon-dbx runs.", "DESIGN.md section 4 C03"),
     "C04": ("txn-mc", "model_checking",
             "explicit-state BFS to closure with straggler re-delivery of every PDU ever sent, armed from the receiver's first success indication",
-            "After the receiver's first NoError/Complete indication every single (quick) / double (thorough) re-delivery of any previously sent PDU, combined with F drops of ACK(EOF)/Finished/ACK(Finished): receiver filestore snapshot (destination and the files of a non-idempotent append request) never changes, no checksum/size failure is reported or sent, the sender reports success only if the receiver did. File transfers and request-only transactions, Modular and Null checksum, acknowledged and unacknowledged+closure; plus a bad EOF (wrong checksum / size) injected before completion, after which the sender must not claim NoError/Complete.",
+            "After the receiver's first NoError/Complete indication every single (quick) / double (thorough) re-delivery of any previously sent PDU, combined with F drops of ACK(EOF)/Finished/ACK(Finished): receiver filestore snapshot (destination and the files of a non-idempotent append request) never changes, no checksum/size failure is reported or sent, the sender reports success only if the receiver did. File transfers and request-only transactions, Modular and Null checksum, acknowledged and unacknowledged+closure; plus a bad EOF (wrong checksum / size) injected before completion, after which the sender must not claim NoError/Complete; user requests at the receiver (a Report whose requester has gone, suspend/resume) during a lost closing handshake. Daemon level: the completing PDU delivered in a burst to real daemons; once the receiving user has been told NoError/Complete the same receive task reports no second delivery and no verdict on the file.",
             E1_NOTE, "DESIGN.md section 4 C04"),
     "C07": ("txn-mc", "model_checking",
             "explicit-state BFS to closure; the explorer injects NAK PDUs from an alphabet of conforming and non-conforming request lists at every state; monitor on every PDU the sender emits",
